@@ -61,6 +61,15 @@ def _to_copy(op, t, dtype=None, device=None, **kwargs):
     return QBitsTensor.create(t._qtype, t._axis, t._group_size, t.size(), t.stride(), data, scale, zeropoint)
 
 
+@register_qbitstensor_op([torch.ops.aten.clone])
+def clone(op, t, memory_format=torch.preserve_format):
+    # Clone is required by copy.deepcopy: it must return a Tensor of the same class
+    data = op(t._data)
+    scale = op(t._scale)
+    zeropoint = op(t._zeropoint)
+    return t.__class__(t._qtype, t._axis, t._group_size, t.size(), t.stride(), data, scale, zeropoint)
+
+
 @register_qbitstensor_op([torch.ops.aten.detach])
 def detach(op, t):
     # Detach is required when copying and deserializing
